@@ -34,6 +34,7 @@ func runC04(c *Ctx) {
 	objectPresenceRule(c, "R6", getStoreFlow(p))
 	// shared rule: history/tree scanners stop only at the end of their input (rules_c05.go)
 	scannerVerdictRule(c, "R7")
+	c04WaitingPaths(c)
 	run := p.Fn("commands", "(*singleCheckout).Run")
 	if run == nil {
 		c.Missing("R1", "(*singleCheckout).Run", "not found")
@@ -464,4 +465,71 @@ var c04Canaries = []Canary{
 	{Name: "fetch-ok-despite-errors", ExpectKey: "C04.R5#fetch:false-on-queue-errors", Edits: []Edit{{File: "commands/command_fetch.go", Find: "	ok := true\n	for _, err := range q.Errors() {\n		ok = false\n		FullError(err)\n	}", Repl: "	ok := true\n	for _, err := range q.Errors() {\n		FullError(err)\n	}"}}},
 	{Name: "pull-no-filter", ExpectKey: "C04.R3#pull:filter-before-scan", Edits: []Edit{{File: "commands/command_pull.go", Find: "	gitscanner.Filter = filter\n", Repl: "	_ = filter\n"}}},
 	{Name: "new-worktree-writer", ExpectKey: "C04.R2", Edits: []Edit{{File: "commands/command_pull.go", Find: "		if pointers.Seen(p) {\n			return\n		}", Repl: "		if pointers.Seen(p) {\n			lfs.NewGitFilter(cfg).SmudgeToFile(p.Name, p.Pointer, false, nil, nil)\n			return\n		}"}}},
+}
+
+// c04WaitingPaths (R8): `git lfs pull` checks a path out at once when its object is local, queues the download
+// for the first path of a missing object, and parks further paths with the same OID behind it (pointerMap.Seen
+// answers true only while an entry for the OID exists). When the download finishes the watcher takes all parked
+// paths (pointerMap.All) and checks them out. All must therefore remove the entry: otherwise every later path
+// with that OID is parked behind a download that is already over and is never materialised, although pull exits 0.
+func c04WaitingPaths(c *Ctx) {
+	p := c.P
+	all := p.Fn("commands", "(*pointerMap).All")
+	seen := p.Fn("commands", "(*pointerMap).Seen")
+	if all == nil || seen == nil {
+		c.Missing("R8", "(*commands.pointerMap).All / Seen", "not found")
+		return
+	}
+	var oid *ssa.Parameter
+	for _, prm := range all.Params {
+		if short(prm.Type().String()) == "string" {
+			oid = prm
+		}
+	}
+	isDelete := func(in ssa.Instruction) bool {
+		cc := AsCall(in)
+		if cc == nil {
+			return false
+		}
+		bi, ok := cc.Value.(*ssa.Builtin)
+		if !ok || bi.Name() != "delete" || len(cc.Args) != 2 {
+			return false
+		}
+		if _, f, _, ok := FieldOf(cc.Args[0]); !ok || f != "pointers" {
+			return false
+		}
+		return oid != nil && Unwrap(cc.Args[1]) == ssa.Value(oid)
+	}
+	good := true
+	for _, ex := range RunCount(CountQuery{Fn: all, Event: func(in ssa.Instruction) CSet {
+		if isDelete(in) {
+			return C1
+		}
+		return 0
+	}}) {
+		if ex.Kind == "return" && ex.Instr.Block().Comment != "recover" && ex.Set&C0 != 0 {
+			good = false
+		}
+	}
+	c.Check(good, "R8", "All-removes-the-entry", p.Pos(all.Pos()), "taking the parked paths of an OID removes its entry",
+		"pointerMap.All hands out the paths waiting for an OID without removing the entry: Seen keeps answering `download in flight` for that OID, so a later path with the same content is parked for ever and never checked out (pull still exits 0)")
+	// Seen answers true only when an entry exists (and parks the path there)
+	pass := PassEdges(seen, func(cond ssa.Value) (bool, bool) {
+		if ex, ok := cond.(*ssa.Extract); ok && ex.Index == 1 {
+			if lk, ok := ex.Tuple.(*ssa.Lookup); ok && lk.CommaOk {
+				if _, f, _, isF := FieldOf(lk.X); isF && f == "pointers" {
+					return true, true
+				}
+			}
+		}
+		return false, false
+	})
+	for _, r := range ReturnsOf(seen) {
+		for _, v := range ReturnValues(r, 0) {
+			if bv, isC := ConstBool(v); isC && bv {
+				g, path := Guarded(seen.Blocks[0], r, pass, nil)
+				c.Check(g && nonVacuous(pass), "R8", "Seen-true-only-for-entry", p.InstrPos(r), "a path is parked only behind an existing entry", "pointerMap.Seen can report a download in flight without an entry for the OID: the path is neither queued nor checked out: "+path)
+			}
+		}
+	}
 }
